@@ -675,8 +675,14 @@ impl Pr {
     }
     fn block(&mut self, b: &[Stmt]) {
         self.ind += 1;
-        for s in b {
-            self.nl();
+        for (i, s) in b.iter().enumerate() {
+            // a quarter of the statements follow their predecessor after a bare `;` on the same line
+            // (`local x = 1;x = 2`): token adjacency must not change name resolution
+            if i > 0 && s.sid % 4 == 0 {
+                self.w(";");
+            } else {
+                self.nl();
+            }
             self.stmt(s);
         }
         self.ind -= 1;
@@ -937,10 +943,13 @@ pub fn print(p: &Program, mode: Mode, run: u32) -> Printed {
         pr.w(&format!("__run = {run}\n"));
         pr.w(XCHECK_PRELUDE);
     }
-    for s in &p.body {
+    for (i, s) in p.body.iter().enumerate() {
+        if i > 0 {
+            pr.w(if s.sid % 4 == 0 { ";" } else { "\n" });
+        }
         pr.stmt(s);
-        pr.w("\n");
     }
+    pr.w("\n");
     pr.out
 }
 
